@@ -292,6 +292,10 @@ def gen_project(rng, idx: int, kind: str, extra: T.List[str], nsites: int) -> T.
         L.append(f"executable('e0', 'main.c', c_args: {msl(args)})")
         sites.append(Site('e0', 'c_args', 'plain', args, []))
         return sites, '\n'.join(L) + '\n'
+    if kind.startswith('argtalk'):
+        spec = argtalk_spec(rng, kind.split('-')[1])
+        sites.append(Site('spec', 'argtalk', kind, [json.dumps(spec)], []))
+        return sites, spec['meson_build']
     if kind == 'templates':
         # every placeholder literal of the current source, alone and embedded in backslash/metacharacter text, in EVERY
         # argument source of every command-carrying construct; the oracle knows per source which ones are documented
@@ -586,12 +590,19 @@ def write_project(root: str, text: str, sites: T.List[Site]) -> T.Tuple[str, str
     with open(cc, 'w') as f:
         f.write(CCWRAP.format(py=sys.executable, dump=os.path.join(src, 'dump.py')))
     os.chmod(cc, 0o755)
+    with open(os.path.join(src, 'cxxwrap'), 'w') as f:
+        f.write(CCWRAP.format(py=sys.executable, dump=os.path.join(src, 'dump.py')).replace('exec cc ', 'exec c++ '))
+    os.chmod(os.path.join(src, 'cxxwrap'), 0o755)
+    for name, text in (('lib.c', 'int mv_c(void) { return 0; }\n'), ('lib2.cpp', 'int mv_cpp() { return 0; }\n'),
+                       ('main2.cpp', 'int mv_main2() { return 0; }\n')):
+        with open(os.path.join(src, name), 'w') as f:
+            f.write(text)
     return src, cc
 
 
 def meson_setup(root: str, src: str, cc: str, rsp: bool) -> T.Tuple[int, str]:
     env = dict(os.environ, PATH=FAKEBIN + os.pathsep + os.environ.get('PATH', ''), CC=cc, PYTHONPATH=common.REPO,
-               LC_ALL='C.UTF-8')
+               CXX=os.path.join(os.path.dirname(cc), 'cxxwrap'), LC_ALL='C.UTF-8')
     env.pop('MESON_RSP_THRESHOLD', None)
     if rsp:
         env['MESON_RSP_THRESHOLD'] = '0'
@@ -776,7 +787,7 @@ def _evaluate_project(ctx: Ctx, root: str, b: str, dumpdir: str, kind: str, site
         elif s.position in ('project_args', 'project_link_args'):
             # checked on every compile / link statement of the project below
             continue
-        elif s.position in ('test', 'test_setup'):
+        elif s.position in ('test', 'test_setup', 'argtalk'):
             continue
         else:
             st = None
@@ -787,6 +798,9 @@ def _evaluate_project(ctx: Ctx, root: str, b: str, dumpdir: str, kind: str, site
         jobs.append((s, st))
 
     check_pickles(ctx, b, kind, jobs)
+    for s0 in sites:
+        if s0.position == 'argtalk':
+            eval_argtalk(ctx, root, b, dumpdir, kind, json.loads(s0.args[0]), rules, builds)
 
     # command strings through the model's Ninja evaluation
     reqs: T.List[str] = []
@@ -1085,6 +1099,156 @@ def mtest_inprocess(ctx: Ctx, b: str, kind: str, tsites: T.List[Site], variants:
                 ctx.disagreement({'kind': 'mtest-cmd', 'input': info, 'impl': full, 'model': a})
 
 
+def argtalk_kwargs() -> T.Dict[str, T.List[str]]:
+    """per target function: the argument-carrying keyword names, enumerated from the live interpreter tables
+    (`_LANGUAGE_KWS`, `_SHARED_STATIC_ARGS`, the `*_KWS` lists) for the languages this sandbox can compile"""
+    langs = ('c', 'cpp')
+    fallback = [f'{l}_args' for l in langs]
+    fb_ss = [f'{l}_{h}_args' for l in langs for h in ('static', 'shared')]
+    try:
+        from mesonbuild.interpreter import type_checking as tc
+        lang_kws = sorted(k.name for k in tc._LANGUAGE_KWS if k.name.rsplit('_', 1)[0] in langs)
+        ss = sorted(k.name for k in tc._SHARED_STATIC_ARGS if k.name.split('_')[0] in langs)
+        tables = {'executable': tc.EXECUTABLE_KWS, 'static_library': tc.STATIC_LIB_KWS, 'shared_library': tc.SHARED_LIB_KWS,
+                  'shared_module': tc.SHARED_MOD_KWS, 'library': tc.LIBRARY_KWS, 'both_libraries': tc.LIBRARY_KWS}
+        out = {}
+        for fn, tab in tables.items():
+            names = {k.name for k in tab}
+            out[fn] = [k for k in lang_kws + ss + ['link_args'] if k in names]
+        return out
+    except Exception:       # noqa: BLE001 - table layout changed: fall back to the documented names
+        return {fn: fallback + (fb_ss if fn in ('library', 'both_libraries') else []) + ['link_args']
+                for fn in ('executable', 'static_library', 'shared_library', 'shared_module', 'library', 'both_libraries')}
+
+
+def argtalk_spec(rng, default_library: str) -> dict:
+    """several targets of every kind whose argument keywords carry target-unique markers; some lists are ONE meson
+    variable used by several targets, one is grown with += between targets"""
+    kws = argtalk_kwargs()
+    L = [f"project('pa', 'c', 'cpp', default_options: ['default_library={default_library}'])",
+         "common = ['-DTcommon_0', '-DTcommon_1']", "acc = ['-DTacc_0']"]
+    acc = ['-DTacc_0']
+    targets: T.Dict[str, dict] = {}
+    order = [('executable', 'e0'), ('static_library', 's0'), ('both_libraries', 'b0'), ('shared_library', 'h0'),
+             ('library', 'l0'), ('shared_module', 'm0'), ('both_libraries', 'b1'), ('executable', 'e1'), ('library', 'l1')]
+    for i, (fn, name) in enumerate(order):
+        kwargs: T.Dict[str, T.List[str]] = {}
+        parts = []
+        for kw in kws[fn]:
+            mk = (lambda n: f'-Wl,--t{name}_{kw}_{n}') if kw == 'link_args' else (lambda n: f'-DT{name}_{kw}_{n}')
+            own = [mk(n) for n in range(rng.randint(1, 2))]
+            if kw == 'c_args' and i % 2 == 0:
+                kwargs[kw] = ['-DTcommon_0', '-DTcommon_1'] + own
+                parts.append(f'{kw}: common + {msl(own)}' if rng.random() < 0.5 else f'{kw}: [common, {", ".join(msn(x) for x in own)}]')
+            elif kw == 'c_args' and i % 3 == 1:
+                kwargs[kw] = ['-DTcommon_0', '-DTcommon_1']
+                parts.append(f'{kw}: common')
+            elif kw == 'cpp_args' and i % 2 == 1:
+                kwargs[kw] = list(acc)
+                parts.append(f'{kw}: acc')
+            else:
+                kwargs[kw] = own
+                parts.append(f'{kw}: {msl(own)}')
+        srcs = "'main.c', 'main2.cpp'" if fn == 'executable' else "'lib.c', 'lib2.cpp'"
+        L.append(f"{fn}('{name}', {srcs}, {', '.join(parts)})")
+        targets[name] = {'fn': fn, 'kwargs': kwargs}
+        if i % 2 == 1:
+            nxt = f'-DTacc_{len(acc)}'
+            acc.append(nxt)
+            L.append(f"acc += [{msn(nxt)}]")
+    return {'default_library': default_library, 'targets': targets, 'meson_build': '\n'.join(L) + '\n'}
+
+
+def eval_argtalk(ctx: Ctx, root: str, b: str, dumpdir: str, kind: str, spec: dict, rules, builds) -> None:
+    """every compile / link statement of the project must carry exactly the marker arguments its own target's
+    definition gives for that language and library half — with multiplicity — and none of any other target's"""
+    targets = spec['targets']
+    owner: T.Dict[str, T.List[str]] = {}
+    for name, t in targets.items():
+        for kw, ms in t['kwargs'].items():
+            for m in ms:
+                owner.setdefault(m, []).append(f'{name}.{kw}')
+    stmts = []
+    for st in builds:
+        m = re.fullmatch(r'(c|cpp)_(COMPILER|LINKER)(_RSP)?|STATIC_LINKER(_RSP)?', st['rule'])
+        if not m or not st['outs']:
+            continue
+        out = st['outs'][0]
+        stage = 'compile' if 'COMPILER' in st['rule'] else 'link'
+        base = out.split('.p/')[0] if stage == 'compile' and '.p/' in out else out
+        if base.startswith('lib') and base.endswith('.a'):
+            name, half = base[3:-2], 'static'
+        elif base.startswith('lib') and base.endswith('.so'):
+            name, half = base[3:-3], 'shared'
+        else:
+            name, half = base, 'exe'
+        if name in targets:
+            stmts.append((st, stage, name, half, (m.group(1) or '')))
+    if not stmts:
+        raise ValueError('no compile/link statements found for the argtalk project')
+    lines = []
+    for st, *_ in stmts:
+        rb = rules.get(st['rule'], [])
+        ins = [x for x in st['ins']]
+        lines.append('edge ' + '|'.join([lenc([k for k, _ in rb]), lenc([v for _, v in rb]), lenc([k for k, _ in st['vars']]),
+                                         lenc([v for _, v in st['vars']]), lenc(ins), lenc(st['outs']), enc('command')]))
+    ans = ctx.driver('quote', lines)
+    todo = []
+    for i, ((st, stage, name, half, lang), a) in enumerate(zip(stmts, ans)):
+        if not a.startswith('ok:'):
+            raise ValueError('command of a compile/link statement is not valid Ninja text: ' + a)
+        todo.append((i, dec(a[3:])))
+
+    def run_one(t):
+        i, command = t
+        env = dict(os.environ, MV_DUMP=dumpdir, MV_ID=f'argtalk-{i}', PYTHONPATH=common.REPO, LC_ALL='C.UTF-8')
+        first = command.split(' ', 1)[0]
+        if os.path.basename(first) in ('ccwrap', 'cxxwrap'):
+            subprocess.run(['/bin/sh', '-c', command], cwd=b, env=env, stdin=subprocess.DEVNULL, stdout=subprocess.PIPE,
+                           stderr=subprocess.STDOUT, timeout=120)
+            recs = read_dump(dumpdir, f'argtalk-{i}')
+            return recs[0]['argv'] if recs else None
+        return 'model'
+    with ThreadPoolExecutor(12) as ex:
+        argvs = list(ex.map(run_one, todo))
+    # statements not started through our compiler stand-in (ar): words by the sh specification of the model
+    need = [i for i, a in enumerate(argvs) if a == 'model']
+    if need:
+        res = ctx.driver('quote', [f'shcmds {enc(todo[i][1])}' for i in need])
+        for i, r in zip(need, res):
+            argvs[i] = [w for c in r[3:].split(';') for w in ldec(c)] if r.startswith('ok:') else None
+    for (st, stage, name, half, lang), argv in zip(stmts, argvs):
+        ctx.count()
+        ctx.tag(f'e2e:argtalk:{stage}:{half}')
+        t = targets[name]
+        case = {'position': 'compile/link args', 'project_kind': kind, 'target': name, 'function': t['fn'], 'stage': stage,
+                'half': half, 'language': lang, 'definition': t['kwargs'], 'output': st['outs'][0],
+                'meson_build': spec['meson_build']}
+        key = f'argtalk:{kind}:{name}:{stage}:{half}:{lang}'
+        if argv is None:
+            ctx.violation(key, 'the compile/link statement could not be executed / read', case)
+            continue
+        got = sorted(a for a in argv if a in owner)
+        kw = t['kwargs']
+        if stage == 'compile':
+            want = list(kw.get(f'{lang}_args', []))
+            if half in ('static', 'shared'):
+                want += kw.get(f'{lang}_{half}_args', [])
+        elif half == 'static':
+            # an archive is not linked: only the absence of other targets' arguments is stated
+            want = [a for a in got if any(o.startswith(name + '.') for o in owner[a])]
+        else:
+            want = list(kw.get('link_args', []))
+        if got != sorted(want):
+            foreign = [f'{a} (given to {", ".join(owner[a])})' for a in got if a not in want]
+            missing = [a for a in want if a not in got]
+            ctx.violation(key, f'{stage} command of {t["fn"]}({name!r}) [{half}, {lang or "link"}] carries {got!r}; its definition '
+                          f'specifies {sorted(want)!r}' + (f'; arguments of other definitions: {foreign!r}' if foreign else '') +
+                          (f'; missing: {missing!r}' if missing else ''), dict(case, got=got, expected=sorted(want)))
+        else:
+            ctx.seen_nontrivial(('e2e', key + repr(got)))
+
+
 def check_pickles(ctx: Ctx, b: str, kind: str, jobs) -> None:
     """oracle on the generated artefacts: every `--unpickle FILE` names a file that unpickles to exactly the command
     that references it, and commands that differ do not share a file"""
@@ -1182,7 +1346,8 @@ def run_e2e(ctx: Ctx, scratch: str, extra_strings: T.Optional[T.List[str]] = Non
         sites, text = gen_project(rng, idx, 'rsp', extra, 4)
         plan.append(('rsp', sites, text))
         idx += 1
-    for kind in ('templates', 'crosstalk', 'tests', 'optlike', 'nl-env', 'nl-compile'):
+    for kind in ('argtalk-both', 'argtalk-static', 'argtalk-shared', 'templates', 'crosstalk', 'tests', 'optlike',
+                 'nl-env', 'nl-compile'):
         sites, text = gen_project(rng, idx, kind, extra, 1)
         plan.append((kind, sites, text))
         idx += 1
